@@ -574,7 +574,17 @@ func (x *xferWorld) prepareServer() {
 		}
 	}
 	if o.actEdit != nil {
-		x.up[0].Mangle = vActMangler(o.actEdit)
+		// (chained: a scenario may have put a rewriter of its own on this link already)
+		prevAct, am := x.up[0].Mangle, vActMangler(o.actEdit)
+		x.up[0].Mangle = func(l *verifsim.Link, data []byte) []byte {
+			if prevAct != nil {
+				data = prevAct(l, data)
+			}
+			if data == nil {
+				return nil
+			}
+			return am(l, data)
+		}
 	}
 	if o.srvCCFrame {
 		prev := x.downLast().Mangle
